@@ -37,12 +37,42 @@ class Obligation:
         else:
             self.status = 'discharged' if v.status == 'unsat' else ('failed' if v.status == 'sat' else 'undecided')
             ni = getattr(self.path, 'info', {}).get('needs_invariant') if self.path is not None else None
+            if self.status == 'failed' and not ni:
+                ni = _diverging_definitional_symbols([goal] + list(self.hyps))
             if self.status == 'failed' and ni:
                 # the refuting path read state left by an ARBITRARY earlier use of the object; without a class invariant over
                 # that state a failed proof here is not a counterexample (it may not be reachable): undecided
                 self.status = 'undecided'
-                v.reason = 'needs a class invariant: %s' % ni
+                v.reason = 'needs an invariant the contract does not state: %s' % ni
         return self
+
+
+def _diverging_definitional_symbols(goal):
+    """comprehensions / folds over opaque sequences are abstracted by definitional symbols of which only congruence is known:
+    two symbols of the same kind with syntactically different bodies may still denote the same value.  A refutation of a
+    goal that relates two such symbols interprets them freely and need not be a real counterexample."""
+    from .symex import DEFS
+    kinds = {}
+    stack, seen = list(goal) if isinstance(goal, list) else [goal], set()
+    while stack:
+        t = stack.pop()
+        if not z3.is_expr(t) or t.get_id() in seen:
+            continue
+        seen.add(t.get_id())
+        if z3.is_quantifier(t):
+            stack.append(t.body())
+            continue
+        if z3.is_app(t):
+            nm = t.decl().name()
+            inf = DEFS.info.get(nm)
+            if inf is not None:
+                kinds.setdefault(inf['kind'], set()).add(nm)
+            stack.extend(t.children())
+    div = {k: sorted(v) for k, v in kinds.items() if len(v) > 1}
+    if div:
+        return 'the refutation relates different definitional symbols of the same kind (%s); only congruence is known about them' % (
+            ', '.join('%s: %s' % (k, '/'.join(v)) for k, v in sorted(div.items())))
+    return None
 
 
 class Undecided:
@@ -68,7 +98,12 @@ class VC:
         self.bounded_notes = []
 
     def under_contract(self, relpath, qualpath):
-        seg, l0, l1, sha = loader.function_segment(relpath, qualpath)
+        try:
+            seg, l0, l1, sha = loader.function_segment(relpath, qualpath)
+        except (KeyError, FileNotFoundError) as e:
+            # the function the contract is written for is no longer there under that name (renamed, moved, removed):
+            # the contract cannot be mapped onto the code -> undecided, never a violation
+            raise Unsupported('CONTRACT-MAPPING %s' % (e,))
         key = '%s::%s' % (relpath, '.'.join(qualpath))
         self.functions[key] = dict(fn=key, lines='%d-%d' % (l0, l1), sha256=sha)
         return key
